@@ -128,6 +128,45 @@ fn replay_draws(words: &[u64]) -> Vec<BigUint> {
   out
 }
 
+/// Does the dealer's sampler consume the random source the way `Fp::random` does (three
+/// 64-bit words per candidate, rejection of candidates >= p)? Established once per run on
+/// plain streams. If not (the sampler was re-written in a way the replay model does not
+/// describe) the replay comparison is switched off and only model-independent facts about
+/// the coefficients are asserted - a different sampler is not a violation of the statement.
+static REPLAY_MODEL_APPLIES: std::sync::atomic::AtomicBool = std::sync::atomic::AtomicBool::new(true);
+static COEFFS_SEEN: std::sync::Mutex<Option<HashSet<Vec<u8>>>> = std::sync::Mutex::new(None);
+
+fn calibrate(ctx: &Ctx) -> bool {
+  for trial in 0..6u64 {
+    let t = 3u32 + (trial % 3) as u32;
+    let k = 1 + (trial % 2) as usize;
+    let mut secret = Vec::new();
+    for j in 0..k {
+      secret.extend_from_slice(&bf::to_le24(&BigUint::from(1000u32 + trial as u32 * 10 + j as u32)));
+    }
+    let mut r = RecRng::new(case_rng(ctx, "calibration-stream", trial));
+    let ev = match Sharks(t).dealer_rng(&secret, &mut r) {
+      Ok(e) => e,
+      Err(_) => return false,
+    };
+    let shares: Vec<Share> = ev.take(t as usize).collect();
+    let draws = replay_draws(&r.log);
+    if draws.len() < k * (t as usize - 1) {
+      return false;
+    }
+    for e in 0..k {
+      let mut coeffs: Vec<BigUint> = draws[e * (t as usize - 1)..(e + 1) * (t as usize - 1)].to_vec();
+      coeffs.push(BigUint::from(1000u32 + trial as u32 * 10 + e as u32));
+      for s in &shares {
+        if s.y.len() != k || bf::horner_high_first(&coeffs, &of_fp(&s.x)) != of_fp(&s.y[e]) {
+          return false;
+        }
+      }
+    }
+  }
+  true
+}
+
 fn elem_choices(rng: &mut ChaCha20Rng) -> BigUint {
   let p = bf::p();
   let one = BigUint::one();
@@ -321,8 +360,9 @@ fn dealing(rec: &mut Rec, ctx: &Ctx, idx: u64, rng: &mut ChaCha20Rng) {
 
   // --- polynomial check: expected coefficients in dealing order (highest first, element-major)
   let all: Vec<&Share> = shares.iter().chain(gen_shares.iter()).collect();
-  let mut in_order_ok = draws.len() >= need;
-  if in_order_ok {
+  let model_on = REPLAY_MODEL_APPLIES.load(std::sync::atomic::Ordering::Relaxed);
+  let mut in_order_ok = !model_on || draws.len() >= need;
+  if in_order_ok && model_on {
     'outer: for e in 0..k {
       let mut coeffs: Vec<BigUint> = draws[e * (t as usize - 1)..(e + 1) * (t as usize - 1)].to_vec();
       coeffs.push(elems[e].clone());
@@ -335,7 +375,7 @@ fn dealing(rec: &mut Rec, ctx: &Ctx, idx: u64, rng: &mut ChaCha20Rng) {
       }
     }
   }
-  if !in_order_ok {
+  if !in_order_ok || !model_on {
     // order-insensitive fallback: interpolate coefficients from t shares and
     // compare as a multiset with the replayed draws
     rec.ev("fallback_interpolation");
@@ -375,6 +415,27 @@ fn dealing(rec: &mut Rec, ctx: &Ctx, idx: u64, rng: &mut ChaCha20Rng) {
           replay(json!({})),
         );
         return;
+      }
+      if !model_on {
+        // model-independent: on plain streams the coefficients are non-zero, and no value
+        // occurs twice - not inside this dealing, not in any other dealing of the run
+        if !adversarial && idx % 5 != 2 {
+          let mut g = COEFFS_SEEN.lock().unwrap();
+          let set = g.get_or_insert_with(HashSet::new);
+          for c in &coeffs[1..] {
+            rec.ev("coefficient_generic_check");
+            if c.is_zero() || !set.insert(c.to_bytes_le()) {
+              drop(g);
+              rec.violation(
+                "coefficient-not-a-separate-draw",
+                format!("coefficient {} of polynomial {} (t={}, k={}) is zero or was seen before in this run", c, e, t, k),
+                replay(json!({"shares": all.iter().take(8).map(|s| share_json(s)).collect::<Vec<_>>() })),
+              );
+              return;
+            }
+          }
+        }
+        continue;
       }
       for c in &coeffs[1..] {
         let ent = used.entry(c.to_bytes_le()).or_insert(0);
@@ -719,7 +780,12 @@ fn long_iterator(rec: &mut Rec, ctx: &Ctx, idx: u64, rng: &mut ChaCha20Rng) {
 
 pub fn run(ctx: &Ctx) -> Rec {
   let n = ctx.n(3000, 150_000);
+  let applies = calibrate(ctx);
+  REPLAY_MODEL_APPLIES.store(applies, std::sync::atomic::Ordering::Relaxed);
+  *COEFFS_SEEN.lock().unwrap() = None;
   let mut rec = par_run(ctx, "dealing", n, |rec, i, rng| dealing(rec, ctx, i, rng));
+  rec.note("replay_model_applies", json!(applies));
+  rec.evn("replay_model_calibrations", 1);
   let r2 = par_run(ctx, "refused", ctx.n(600, 20_000), |rec, i, rng| refused_secrets(rec, ctx, i, rng));
   rec.merge(r2);
   rec.merge(par_run(ctx, "mixed-degree", ctx.n(400, 20_000), |rec, i, rng| mixed_degree_evaluator(rec, ctx, i, rng)));
